@@ -5,6 +5,9 @@ CONSTANTS
   MaxNonNone = 2
   MaxScopes = 2
   Dmarcs = {"off"}
+  Vias = {"p"}
+  EarlyOn = FALSE
+  DupOn = FALSE
   ExtraV = {"rq"}
   Only1On = FALSE
   WithRemote = TRUE
